@@ -1076,6 +1076,26 @@ enum filter_result mcount_entry_filter_check(struct mcount_thread_data *mtdp, un
 	return FILTER_IN;
 }
 
+/*
+ * undo what mcount_entry_filter_check() did for a function it then rejected.
+ * Only needed when no shadow stack entry is kept for the function (-pg and
+ * fentry): nothing would restore the filter state at its exit.
+ */
+static void mcount_entry_filter_undo(struct mcount_thread_data *mtdp, struct uftrace_trigger *tr)
+{
+	if (tr->flags & TRIGGER_FL_FILTER) {
+		if (tr->fmode == FILTER_MODE_IN)
+			mtdp->filter.in_count--;
+		else if (tr->fmode == FILTER_MODE_OUT)
+			mtdp->filter.out_count--;
+	}
+
+	mtdp->filter.depth = mtdp->filter.saved_depth;
+	mtdp->filter.max_depth = mtdp->filter.saved_max_depth;
+	mtdp->filter.time = mtdp->filter.saved_time;
+	mtdp->filter.size = mtdp->filter.saved_size;
+}
+
 static int script_save_context(struct script_context *sc_ctx, struct mcount_thread_data *mtdp,
 			       struct mcount_ret_stack *rstack, char *symname, bool has_arg_retval,
 			       struct list_head *pargs)
@@ -1408,6 +1428,11 @@ enum filter_result mcount_entry_filter_check(struct mcount_thread_data *mtdp, un
 	return FILTER_IN;
 }
 
+static inline void mcount_entry_filter_undo(struct mcount_thread_data *mtdp,
+					    struct uftrace_trigger *tr)
+{
+}
+
 void mcount_entry_filter_record(struct mcount_thread_data *mtdp, struct mcount_ret_stack *rstack,
 				struct uftrace_trigger *tr, struct mcount_regs *regs)
 {
@@ -1521,6 +1546,9 @@ static int __mcount_entry(unsigned long *parent_loc, unsigned long child, struct
 	tr.flags = 0;
 	filtered = mcount_entry_filter_check(mtdp, child, &tr);
 	if (filtered != FILTER_IN) {
+		/* this function gets no entry in the shadow stack */
+		if (filtered == FILTER_OUT)
+			mcount_entry_filter_undo(mtdp, &tr);
 		mcount_unguard_recursion(mtdp);
 		return -1;
 	}
